@@ -169,7 +169,7 @@ theorem unlock_only_finished_synchronizations (hooks : List Hook) (s : St) (ms :
       (∀ m ∈ merged, m.hook = t.hook ∧ m.typ = .hookRun) ∧ ms = (t :: merged).flatMap (·.mons) :=
   unlock_shape stopFact hooks s ms h
 
-/-- Neither `taskHandleEnableKubernetesBindings` nor the glue `HookController.HandleEnableKubernetesBindings`
+/-! Neither `taskHandleEnableKubernetesBindings` nor the glue `HookController.HandleEnableKubernetesBindings`
 nor `EnableKubernetesBindings` itself lets Events through (regenerated from the three functions): enabling a
 binding starts its monitor locked, whatever the options of the binding (`waitForSynchronization`, queue, …)
 say — the step machine's `enableKube` iteration has no `unlock`, see `enable_iteration_never_unlocks`. -/
